@@ -5,9 +5,10 @@ PID = 'C16'
 
 
 def items():
-    from contracts import encryption, keymgmt
+    from contracts import encryption, keymgmt, secretkeys
     # "decryption finds the addressed subkey", "the produced ... session-key packet names exactly the key that was used"
-    other = [s for s in encryption.scenarios() + keymgmt.scenarios() if PID in s.props]
+    # 'private operations refuse on ... locked keys': what is locked after every exit of unlock(), and what `unlocked` means
+    other = [s for s in encryption.scenarios() + keymgmt.scenarios() + secretkeys.scenarios() if PID in s.props]
     return usage.scenarios() + [s for s in verdicts.SCENARIOS if PID in s.props] + other
 
 
